@@ -225,3 +225,21 @@ theorem conformant_treeLike {d : Doc} (h : conformantB d = true) : TreeLike d :=
       simpa using hr
 
 end Rfsm.Interp
+
+namespace Rfsm.Interp
+
+/-- in a list sorted by descending document id, a descendant stands before its ancestor -/
+theorem descendant_before_ancestor {d : Doc} (ht : TreeLike d) {order l1 l2 : List Nat} {x p : Nat}
+    (hs : order.Pairwise (fun a b => docIdOf d b ≤ docIdOf d a))
+    (hsplit : order = l1 ++ p :: l2) (hx : x ∈ order) (hd : isDescendant d x p = true) : x ∈ l1 := by
+  have hlt := isDescendant_docLt ht hd
+  subst hsplit
+  rcases List.mem_append.1 hx with h | h
+  · exact h
+  · rcases List.mem_cons.1 h with h | h
+    · subst h; omega
+    · have hp := (List.pairwise_append.1 hs).2.1
+      have := (List.pairwise_cons.1 hp).1 x h
+      omega
+
+end Rfsm.Interp
